@@ -41,6 +41,9 @@ def run(db, rep, tier):
     rep.rule("R7-binary-safe", "record data leaves the parser with an explicit length; only NUL-terminated text goes through a C string", 1)
     r6(db, rep)
     r7(db, rep)
+    rep.rule("R9-per-record-state", "record walkers decode each record from the message alone: a scalar or string local that the record loop "
+                                    "assigns is (re)assigned on every path of the iteration before it is read", 0)
+    r9(db, rep)
     rep.rule("R8-pointer-space", "a decoded compression pointer (offset from the start of the MESSAGE) meets a records-relative offset only "
                                  "after the 12-byte header has been accounted for on one side", 4)
     r8(db, rep)
@@ -496,5 +499,129 @@ def r8(db, rep):
                 rep.ok("R8-pointer-space", key, site, why)
             else:
                 rep.violation("R8-pointer-space", key, site, why)
+    r8_boundary(db, rep, hdr)
     if decoders < 2:
         rep.analysis_broken("expected the two compression-pointer decoders (compose_name, update_dname), found %d" % decoders)
+
+
+def r8_boundary(db, rep, hdr):
+    """update_dname: the pointer is re-encoded exactly when its target is at or behind the insertion point
+    (message offset >= threshold + header): finite evaluation of the guard around the boundary."""
+    from vlib import ieval
+    fs = db.fns_named(DNS + "::update_dname")
+    if not fs:
+        rep.analysis_broken("DNS::update_dname vanished")
+        return
+    f = fs[0]
+    key = "update_dname:relocation-boundary"
+    thr = [p for p in f["params"] if p["name"] == "threshold"]
+    cand = None
+    for x in facts.fn_nodes(f):
+        if x["k"] == "IfStmt":
+            real = [y for y in x["c"] if y is not None]
+            if len(real) >= 2 and any(y["k"] == "BinaryOperator" and y.get("op") == "|" and 0xc000 in (facts.cval(y["c"][0]), facts.cval(y["c"][1]))
+                                      for y in facts.walk(real[1])):
+                inner = [y for y in facts.walk(real[1]) if y["k"] == "IfStmt"]
+                if not inner:
+                    cand = (x, real)
+    ptrvar = None
+    for x in facts.fn_nodes(f):
+        if x["k"] == "BinaryOperator" and x.get("op") == "=" and strip(x["c"][0])["k"] == "DeclRefExpr" and \
+                any(y["k"] == "BinaryOperator" and y.get("op") == "&" and 0x3fff in (facts.cval(y["c"][0]), facts.cval(y["c"][1])) for y in facts.walk(x["c"][1])):
+            ptrvar = strip(x["c"][0])["var"]
+    if cand is None or not thr or ptrvar is None:
+        rep.analysis_broken("update_dname: the guard of the pointer re-encoding was not recognised")
+        return
+    node, real = cand
+    bad = None
+    n = 0
+    try:
+        for T in (0, 7, 100, 5000):
+            for d in (-12, -2, -1, 0, 1, 2, 40):
+                V = T + hdr + d
+                if V < 0 or V > 0x3fff:
+                    continue
+                n += 1
+                c = bool(ieval.ev(f, real[0], {ptrvar: V, thr[0]["var"]: T}))
+                if c != (d >= 0) and bad is None:
+                    bad = ("insertion at records offset %d (message offset %d): a pointer to message offset %d is %s; it must be relocated "
+                           "exactly when its target is at or behind the insertion point" % (T, T + hdr, V, "relocated" if c else "left alone"))
+    except ieval.Unknown as e:
+        rep.analysis_broken("update_dname: guard outside the finite evaluator: %s" % e)
+        return
+    if bad:
+        rep.violation("R8-pointer-space", key, facts.loc(f, node), bad)
+    else:
+        rep.ok("R8-pointer-space", key, facts.loc(f, node), "`%s` relocates exactly the pointers at or behind the insertion point (%d cells around the boundary)"
+               % (facts.expr_str(real[0]), n))
+
+
+RECORD_WALKERS = (DNS + "::convert_records", DNS + "::queries")
+
+
+def r9(db, rep):
+    walkers = 0
+    for q in RECORD_WALKERS:
+        fs = [f for f in db.fns_named(q) if f.get("body")]
+        if not fs:
+            rep.analysis_broken("%s vanished" % q)
+            continue
+        f = fs[0]
+        loops = [x for x in facts.fn_nodes(f) if x["k"] in ("WhileStmt", "ForStmt", "DoStmt")]
+        if not loops:
+            rep.analysis_broken("%s: record loop not found" % q)
+            continue
+        walkers += 1
+        loop = loops[0]
+        inside = set(x["id"] for x in facts.walk(loop))
+        g = cfg.FnCFG(f)
+        short = q.split("::")[-1]
+        outer = {}
+        for x in facts.fn_nodes(f):
+            if x["k"] == "VarDecl" and x["id"] not in inside:
+                t = facts.tyi(f, x.get("t")) or {}
+                if t.get("k") in ("int", "bool", "enum") or (t.get("k") == "rec" and "basic_string" in (t.get("name") or "")):
+                    outer[x["var"]] = x
+        idx, par = facts.index_fn(f)
+        for v, decl in sorted(outer.items()):
+            writes, reads = [], []
+            for x in facts.walk(loop):
+                if x["k"] != "DeclRefExpr" or x.get("var") != v:
+                    continue
+                p = par.get(x["id"])
+                while p is not None and p["k"] in ("ParenExpr",):
+                    p = par.get(p["id"])
+                is_w = False
+                if p is not None:
+                    if p["k"] in ("BinaryOperator", "CompoundAssignOperator") and p.get("op", "").endswith("=") and \
+                            p.get("op") not in ("==", "!=", "<=", ">=") and strip(p["c"][0]) is x:
+                        is_w = p.get("op") == "="
+                        if not is_w:
+                            reads.append(x)
+                    elif p["k"] == "CXXOperatorCallExpr" and p.get("cname") == "operator=" and strip(p["c"][1]) is x:
+                        is_w = True
+                    elif p["k"] == "MemberExpr" and p.get("member") in ("clear", "assign") :
+                        is_w = True
+                if is_w:
+                    writes.append(p)
+                elif x not in reads:
+                    reads.append(x)
+            if not writes:
+                continue            # loop-invariant or only accumulated through calls
+            wpos = [q_ for q_ in (g.pos(w) for w in writes) if q_]
+            bad = None
+            for r_ in reads:
+                rp = g.pos(r_)
+                if rp is None:
+                    continue
+                if g.reached_from_entry_avoiding(rp, wpos) is not None:
+                    bad = r_
+                    break
+            key = "%s:%s" % (short, decl.get("name"))
+            if bad is not None:
+                rep.violation("R9-per-record-state", key, facts.loc(f, bad),
+                              "`%s` lives across iterations of the record loop and is read here on a path that does not assign it in this "
+                              "iteration: a record can be decoded with what an earlier record left behind" % decl.get("name"))
+            else:
+                rep.ok("R9-per-record-state", key, facts.loc(f, decl), "assigned on every path of the iteration before each read")
+    rep.extra["record_walkers"] = walkers
